@@ -233,30 +233,29 @@ class Env:
         self.codes[k] = self.codes.get(k, 0) + 1
         return True
 
-    def sampling_diag(self, fn, tape_runs, t, m, g, detail):
+    def sampling_diag(self, fn, t, m, g, detail):
         """generator-consuming functions: if the library stopped sampling at a candidate the model rejects,
         say so (one key for the defect whatever its downstream manifestation). Returns True if reported."""
         no = self.no
         if t.overrun:
             self.ctx.violation("%s:sampling:tape-overrun" % fn,
-                               "%s asked the generator for more than %d rounds" % (fn, RB.RETRIES + 1),
-                               dict(detail, consumed=t.pos))
+                               "%s read past the end of a tape that holds every candidate the model consumes" % fn,
+                               dict(detail, consumed_octets=t.pos, tape_octets=len(t.data)))
             return True
         if t.pos == 0 or t.pos % no:
             return False
         cand = RB.num(t.data[t.pos - no:t.pos])
-        if g[0] == 0 or m[0] == OK:
-            # library accepted something (or failed later) at this candidate: is it admissible?
-            mt = RB.Tape(t.data)
-            self.M.rand_nz(mt)
-            if mt.pos != t.pos and (cand == 0 or cand >= self.q):
-                kind = "=0" if cand == 0 else (">=q-below-p" if cand < self.p else ">=p")
-                det = dict(detail, consumed_octets=t.pos, model_consumes=mt.pos, candidate=hx(self.le(cand)),
-                           library=[bee2.errname(g[0])] + [hx(x) for x in g[1:]],
-                           model=[m[0]] + [hx(x) for x in m[1:]])
-                self.ctx.violation("%s:sampling:accepted-candidate%s" % (fn, kind),
-                                   "%s stops rejection sampling at a candidate outside {1..q-1}" % fn, det)
-                return True
+        mt = RB.Tape(t.data)
+        self.M.rand_nz(mt)
+        if t.pos < mt.pos and (cand == 0 or cand >= self.q):
+            # the library stopped sampling at a candidate the model rejects (whatever happened downstream)
+            kind = "=0" if cand == 0 else (">=q-below-p" if cand < self.p else ">=p")
+            det = dict(detail, consumed_octets=t.pos, model_consumes=mt.pos, candidate=hx(self.le(cand)),
+                       library=[bee2.errname(g[0])] + [hx(x) for x in g[1:]],
+                       model=[m[0]] + [hx(x) for x in m[1:]])
+            self.ctx.violation("%s:sampling:accepted-candidate%s" % (fn, kind),
+                               "%s stops rejection sampling at a candidate outside {1..q-1}" % fn, det)
+            return True
         return False
 
 
@@ -348,33 +347,38 @@ def unit_sign(ctx):
                 t = bytes(rng.getrandbits(8) for _ in range(rng.randrange(1, 32) if tc == "t=short" else rng.randrange(32, 200)))
             extra = ("t", tc, t)
         plan.append((fn, dc, Hc, oc, E.le(d), E.le(H), extra))
+    aux = {}
     for n, (fn, dc, Hc, oc, db, H, extra) in enumerate(plan):
         der = E.ders[oc]
-        cls = "%s/l%d/%s/%s/oid=%s/%s" % (fn, l, dc, Hc, oc, extra[1])
+        cls = "%s/l%d/%s/%s" % (fn, l, dc, Hc)
         desc = ["bign" + fn, l, {"d": hx(db), "H": hx(H), "oid": hx(der), extra[0]: None if extra[2] is None else hx(extra[2])}]
         if not ctx.case(desc, cls):
             continue
+        for a in ("oid=" + oc, extra[1]):
+            aux[a] = aux.get(a, 0) + 1
         det = {"l": l, "d": hx(db), "H": hx(H), "oid_der": hx(der), extra[0]: None if extra[2] is None else hx(extra[2])}
         if fn == "Sign":
             g, t = E.sign(der, H, db, extra[2])
             m = M.sign(der, H, db, RB.Tape(extra[2]))
-            if not E.sampling_diag("bignSign", None, t, m, g, det):
-                ok = E.compare("bignSign", "H<q", m, g, det)
+            if not E.sampling_diag("bignSign", t, m, g, det):
+                E.compare("bignSign", "H<q", m, g, det)
             ctx.digest(t.pos)
         else:
             g = E.sign2(der, H, db, extra[2])
             m = M.sign2(der, H, db, extra[2])
-            ok = E.compare("bignSign2", "H<q", m, g, det)
+            E.compare("bignSign2", "H<q", m, g, det)
         rv = None
         if g[0] == 0:
             Qb = M.pubkey_calc(db)[1]
             rv = E.verify(der, H, g[1], Qb)
-            mv = M.verify(der, H, g[1], Qb) if (g[1] != m[1] or n % 8 == 0) else (OK,)
-            if m[0] == OK and g[1] == m[1] and mv[0] != OK:
+            same = m[0] == OK and g[1] == m[1]
+            mv = M.verify(der, H, g[1], Qb) if (not same or n % 8 == 0) else (OK,)
+            if same and mv[0] != OK:
                 raise Harness("model rejects its own signature: %r" % (det,))
             E.compare("bignVerify", "own-signature", mv, rv, dict(det, sig=hx(g[1]), pubkey=hx(Qb)))
         ctx.digest(g[0], g[1] if g[0] == 0 else b"", rv)
         E.lib.release()
+    ctx.note("sign_aux_classes", aux)
     E.finish()
 
 
@@ -529,8 +533,8 @@ def unit_verify_alt(ctx):
     if M.verify(der, H, sig, Qb) != (OK,):
         raise Harness("model rejects its own signature")
     alts = [("none", None, None)]
-    for i in range(4 * l):
-        alts.append(("bit:s0" if i < l else "bit:s1", "sig", i)) if i < 3 * l else None
+    for i in range(3 * l):
+        alts.append(("bit:s0" if i < l else "bit:s1", "sig", i))
     for i in range(2 * l):
         alts.append(("bit:H", "H", i))
     for i in range(4 * l):
@@ -750,7 +754,7 @@ def unit_tapes(ctx):
         if fn == "KeypairGen":
             g, t = E.keypair_gen(tb)
             m = M.keypair_gen(RB.Tape(tb))
-            if not E.sampling_diag("bignKeypairGen", runs, t, m, g, det):
+            if not E.sampling_diag("bignKeypairGen", t, m, g, det):
                 E.compare("bignKeypairGen", "tape", m, g, det)
             if g[0] == 0:
                 # "key generation returns a pair that passes key-pair validation"
@@ -769,7 +773,7 @@ def unit_tapes(ctx):
             g, t = E.sign(der, x["H"], x["d"], tb)
             m = M.sign(der, x["H"], x["d"], RB.Tape(tb))
             det.update(d=hx(x["d"]), H=hx(x["H"]))
-            if not E.sampling_diag("bignSign", runs, t, m, g, det):
+            if not E.sampling_diag("bignSign", t, m, g, det):
                 E.compare("bignSign", "tape", m, g, det)
             if g[0] == 0:
                 Qb = M.pubkey_calc(x["d"])[1]
@@ -781,18 +785,19 @@ def unit_tapes(ctx):
             g, t = E.key_wrap(x["key"], x["header"], Qb, tb)
             m = M.key_wrap(x["key"], x["header"], Qb, RB.Tape(tb))
             det.update(d=hx(x["d"]), key=hx(x["key"]), header=hx(x["header"]))
-            if not E.sampling_diag("bignKeyWrap", runs, t, m, g, det):
+            if not E.sampling_diag("bignKeyWrap", t, m, g, det):
                 E.compare("bignKeyWrap", "tape", m, g, det)
             if g[0] == 0:
                 u = E.key_unwrap(g[1], x["header"], x["d"])
                 rv = (u[0],)
-                E.compare("bignKeyUnwrap", "tape:own-token", (OK, x["key"]) if g[1] == m[1] else M.key_unwrap(g[1], x["header"], x["d"]),
+                E.compare("bignKeyUnwrap", "tape:own-token",
+                          (OK, x["key"]) if (m[0] == OK and g[1] == m[1]) else M.key_unwrap(g[1], x["header"], x["d"]),
                           u, dict(det, token=hx(g[1])))
         elif fn == "IdSign":
             g, t = E.id_sign(der, x["H0"], x["H"], x["d"], tb)
             m = M.id_sign(der, x["H0"], x["H"], x["d"], RB.Tape(tb))
             det.update(e=hx(x["d"]), H=hx(x["H"]), id_hash=hx(x["H0"]))
-            if not E.sampling_diag("bignIdSign", runs, t, m, g, det):
+            if not E.sampling_diag("bignIdSign", t, m, g, det):
                 E.compare("bignIdSign", "tape", m, g, det)
         else:
             raise Harness(fn)
@@ -891,7 +896,7 @@ def unit_keyt(ctx):
         det = {"l": l, "key": hx(key), "header": header and hx(header), "privkey": hx(db), "pubkey": hx(Qb), "tape": hx(tb)}
         g, t = E.key_wrap(key, header, Qb, tb)
         m = M.key_wrap(key, header, Qb, RB.Tape(tb))
-        if not E.sampling_diag("bignKeyWrap", None, t, m, g, det):
+        if not E.sampling_diag("bignKeyWrap", t, m, g, det):
             E.compare("bignKeyWrap", "value", m, g, det)
         ctx.digest(g[0], g[1] if g[0] == 0 else b"")
         E.lib.release()
@@ -1038,7 +1043,7 @@ def unit_ibs(ctx):
             elif op == "produce:idsign":
                 g, tp = E.id_sign(der, H0, H, eb, E.le(k))
                 m = (OK, msig)
-                if not E.sampling_diag("bignIdSign", None, tp, m, g, base_det):
+                if not E.sampling_diag("bignIdSign", tp, m, g, base_det):
                     E.compare("bignIdSign", ecls, m, g, dict(base_det, tape=hx(E.le(k))))
                 v = None
                 if g[0] == 0:
@@ -1108,7 +1113,7 @@ def unit_val(ctx):
         pts.append(("bitflip", flip(M.point_bytes(P0), rng.randrange(16 * no))))
     G = M.G
     pts += [("G", M.point_bytes(G)), ("-G", M.point_bytes((0, p - G[1]))), ("(0,0)", bytes(2 * no)),
-            ("x=p(G)", E.le(p) + E.le(G[1])), ("y+p?", E.le(0) + E.le(G[1] + p if G[1] + p < E.top else E.top - 1)),
+            ("x=p(G)", E.le(p) + E.le(G[1])),
             ("x=2^2l-1", E.le(E.top - 1) + E.le(G[1])), ("y=p", E.le(0) + E.le(p)), ("y=2^2l-1", E.le(0) + E.le(E.top - 1))]
     for kind, Qb in pts:
         if not ctx.case(["bignPubkeyVal", l, kind, hx(Qb)], "val/l%d/pubkey:%s" % (l, kind)):
@@ -1122,7 +1127,6 @@ def unit_val(ctx):
     Qo = M.point_bytes(rand_point(E, rng))
     pairs = [("valid", E.le(d), Qd), ("d=1", E.le(1), M.point_bytes(G)), ("d=q-1", E.le(q - 1), M.point_bytes((0, p - G[1]))),
              ("d=0", E.le(0), Qd), ("d=q", E.le(q), Qd), ("d=q+1", E.le(q + 1), M.point_bytes(G)),
-             ("d+q?", E.le(d + q if d + q < E.top else E.top - 1), Qd),
              ("d=2^2l-1", E.le(E.top - 1), Qd), ("Q=-Q", E.le(d), Qd[:no] + E.le(p - RB.num(Qd[no:]))),
              ("Q=other", E.le(d), Qo), ("Q=bitflip", E.le(d), flip(Qd, rng.randrange(16 * no))),
              ("d=bitflip", flip(E.le(d), rng.randrange(8 * no - 1)), Qd)]
@@ -1132,7 +1136,7 @@ def unit_val(ctx):
         g = E.keypair_val(db, Qb)
         E.compare("bignKeypairVal", kind, M.keypair_val(db, Qb), g, {"l": l, "privkey": hx(db), "pubkey": hx(Qb)})
         gc = E.pubkey_calc(db)
-        E.compare("bignPubkeyCalc", kind.split("=")[0] if kind.startswith("Q") else kind, M.pubkey_calc(db), gc, {"l": l, "privkey": hx(db)})
+        E.compare("bignPubkeyCalc", "d-class" if kind.startswith("Q") else kind, M.pubkey_calc(db), gc, {"l": l, "privkey": hx(db)})
         ctx.digest(g[0], gc[0], gc[1] if gc[0] == 0 else b"")
         E.lib.release()
     E.finish()
@@ -1147,27 +1151,27 @@ def hq_jobs():
 
 
 def jobs(tier, scale=1.0):
+    """scale < 1: reduced replay workload (other configurations); the boundary grid of unit_sign, the H >= q
+    classes, the tapes and the edge cases stay complete, the bulk (random cases, alteration slices) shrinks."""
     quick = tier == "quick"
-    mult = (1 if quick else 8) * scale
+    f = (1.0 if quick else 8.0) * scale
+    full = scale >= 1
     js = []
 
     def cnt(x, lo=1):
-        return max(lo, int(round(x * mult)))
+        return max(lo, int(round(x * f)))
 
-    # sign grid + random
     for l, nch in ((128, 3), (192, 4), (256, 6)):
-        nch = max(1, int(round(nch * min(1.0, max(scale, 0.34))))) if quick else nch * 2
+        nch = max(1, int(round(nch * (1 if quick else 2) * min(1.0, scale))))
         for c in range(nch):
             js.append({"unit": "c02:unit_sign", "params": {"l": l, "chunk": c, "nch": nch, "nrand": cnt(400.0 / nch, 2)}})
     js += hq_jobs()
-    # verifier alterations: every bit of one (quick) / eight (thorough) signatures per level
-    nbase = max(1, int(round(mult))) if scale >= 1 else 1
     for l, nparts in ((128, 2), (192, 4), (256, 8)):
-        if scale < 1:
-            # reduced: one base, one slice of the alteration list per level
-            js.append({"unit": "c02:unit_verify_alt", "params": {"l": l, "base": 0, "part": 0, "nparts": max(1, int(round(nparts * 2 / scale / 4)))}})
+        if not full:
+            # one base signature, one slice of its alteration list
+            js.append({"unit": "c02:unit_verify_alt", "params": {"l": l, "base": 0, "part": 0, "nparts": int(round(nparts / scale))}})
             continue
-        for b in range(nbase):
+        for b in range(1 if quick else 8):
             for part in range(nparts):
                 js.append({"unit": "c02:unit_verify_alt", "params": {"l": l, "base": b, "part": part, "nparts": nparts}})
     for l in LEVELS:
@@ -1175,30 +1179,31 @@ def jobs(tier, scale=1.0):
         for fn in ("KeypairGen", "Sign", "KeyWrap", "IdSign"):
             js.append({"unit": "c02:unit_tapes", "params": {"l": l, "fn": fn, "nrand": cnt(20 if fn == "KeypairGen" else 6)}})
         js.append({"unit": "c02:unit_dh", "params": {"l": l, "n": cnt(40, 16)}})
-        nparts = 1 if scale < 1 else ({128: 1, 192: 2, 256: 3}[l] * (1 if quick else 4))
-        for part in range(nparts):
-            js.append({"unit": "c02:unit_keyt", "params": {"l": l, "part": part, "nparts": nparts if quick or scale < 1 else nparts,
-                                                          "full_header": scale >= 1}})
-        nb = 4 if quick else 16
-        if scale < 1:
-            nb = 1
+        nparts = {128: 1, 192: 2, 256: 3}[l]
+        if not full:
+            js.append({"unit": "c02:unit_keyt", "params": {"l": l, "part": 0, "nparts": int(round(4 * nparts / scale)), "rep": 0,
+                                                          "full_header": False}})
+        else:
+            for rep in range(1 if quick else 6):
+                for part in range(nparts):
+                    js.append({"unit": "c02:unit_keyt", "params": {"l": l, "part": part, "nparts": nparts, "rep": rep,
+                                                                  "full_header": rep == 0}})
         npi = {128: 1, 192: 1, 256: 2}[l]
+        nb = 1 if not full else (4 if quick else 16)
         for b in range(nb):
-            for part in range(npi):
-                js.append({"unit": "c02:unit_ibs", "params": {"l": l, "base": b, "part": part, "nparts": npi,
-                                                             "bits": cnt(24, 4) if quick else 10 ** 6 if l == 128 else 96}})
+            allbits = (not quick) and full and l == 128 and b < 4
+            for part in range(4 if allbits else npi):
+                js.append({"unit": "c02:unit_ibs", "params": {"l": l, "base": b, "part": part, "nparts": 4 if allbits else npi,
+                                                             "bits": 10 ** 6 if allbits else (24 if quick or not full else 96)}})
         js.append({"unit": "c02:unit_val", "params": {"l": l, "n": cnt(6, 2)}})
     return js
-
-
-REQUIRED = tuple(
-    ["Sign/l%d/d=1/H=0/oid=short/k=rand" % 128] * 0 +
-    [])
 
 
 def required_classes():
     req = []
     for l in LEVELS:
+        req += ["%s/l%d/%s/%s" % (fn, l, d, H) for fn in ("Sign", "Sign2") for d in ("d=1", "d=2", "d=q-1", "d=rand")
+                for H in ("H=0", "H=1", "H=q-1", "H=rand")]
         req += ["verify-alt/l%d/%s" % (l, k) for k in ("none", "bit:s0", "bit:s1", "bit:H", "bit:Qx", "bit:Qy", "bit:oid", "Q=(x,p-y)",
                                                        "Q.x=p", "Q-on-twist", "Q=(0,0)", "s1=q")]
         req += ["verify-edge/l%d/%s" % (l, k) for k in ("s1=0:valid", "s1=0:alias-s1+q", "s1=2^2l-1-q:alias-s1+q", "s1+H=q:valid",
@@ -1213,10 +1218,25 @@ def required_classes():
         req += ["keyt/l%d/unwrap/%s" % (l, k) for k in ("none", "hdr:bit", "token:bit@first", "token:bit@last", "token:x-without-sqrt",
                                                        "token:x=p", "token:truncated-1", "token:len=no+31")]
         req += ["keyt/l%d/wrap/len=16/hdr=rand" % l, "keyt/l%d/wrap/len=64/hdr=rand" % l]
+        req += ["ibs/l%d/e=rand/H=rand/produce:extract" % l, "ibs/l%d/e=0/H=rand/produce:idsign" % l,
+                "ibs/l%d/e=rand/H=rand/verify-alt/bit:id_sig" % l, "ibs/l%d/e=rand/H=rand/verify-alt/bit:id_pubkey" % l,
+                "ibs/l%d/e=rand/H=rand/extract-alt/bit:sig" % l, "ibs/l%d/e=rand/H=rand/extract-alt/pubkey-on-twist" % l]
         req += ["val/l%d/pubkey:twist" % l, "val/l%d/pubkey:(0,0)" % l, "val/l%d/pubkey:x=p(G)" % l, "val/l%d/keypair:d=0" % l,
                 "val/l%d/keypair:d=q" % l, "val/l%d/keypair:d=q+1" % l]
         req += ["dh/l%d/invalid:Q-on-twist" % l, "dh/l%d/invalid:keylen=2no+1" % l, "dh/l%d/d=1/d=q-1/keylen=no+1" % l]
     return tuple(req)
+
+
+def _weight(j):
+    u, p = j["unit"], j["params"]
+    w = {128: 1, 192: 2, 256: 4}[p["l"]]
+    if "hq" in u:
+        return 100 * w if j["cfg"].startswith("asan") else w
+    if "verify_alt" in u:
+        return 30 * w
+    if "ibs" in u or "keyt" in u:
+        return 12 * w
+    return 5 * w
 
 
 def main(run):
@@ -1226,8 +1246,7 @@ def main(run):
     js += [dict(j, cfg="rel64") for j in hq_jobs()]
     if not quick:
         js += [dict(j, cfg="asan32") for j in jobs("quick", 0.25)]
-    # long jobs first
-    js.sort(key=lambda j: -(j["params"]["l"] * (3 if "alt" in j["unit"] or "ibs" in j["unit"] else 1)))
+    js.sort(key=lambda j: -_weight(j))
     run.run_jobs(js)
     return run.finish(
         rule="case = one call of a public bign function on (level, keys, hash, OID DER, generator tape / t, alteration); "
